@@ -204,7 +204,7 @@ func genClientReq(t *rapid.T, rt routeSpec) clientReq {
 	}
 	q.rawPath = p
 	if rapid.IntRange(0, 2).Draw(t, "hasq") > 0 {
-		q.query = rapid.SampledFrom([]string{"a=1&b", "a=1", "x=%20y&z=%2F", "q", "a=b=c", "%41=%42", "a=1&a=2", "a+b=c+d"}).Draw(t, "query")
+		q.query = rapid.SampledFrom([]string{"a=1&b", "a=1", "x=%20y&z=%2F", "q", "a=b=c", "%41=%42", "a=1&a=2", "a+b=c+d", "a=1&", "&a=1", "&&", "&", "a=1&&b=2", "=", "a=1&="}).Draw(t, "query")
 	}
 	for i, n := 0, rapid.IntRange(0, 8).Draw(t, "nhdr"); i < n; i++ {
 		name := rapid.SampledFrom(hdrNames).Draw(t, "hname")
